@@ -60,64 +60,123 @@ def is_err(e):
     return e.get("k") == "Call" and (declared(e) or "").endswith("::Err")
 
 
+def _simplify(P):
+    """reader paths -> set of (tokens, kind, outcome, guarded) with symbols replaced by token positions"""
+    out = []
+    for st, v in P.done:
+        pos = {}
+        toks = []
+        for i, t in enumerate(st.tokens):
+            if t[0] in ("u8", "i8") or (t[0][:3] in ("u16", "i16", "u32", "i32", "u64", "i64")):
+                sy = t[1]
+                pos[sy] = i
+                c = st.cons.get(sy)
+                toks.append((t[0], ("=", c[1]) if c and c[0] == "eq" else (("!=", tuple(sorted(c[1]))) if c else None)))
+            elif t[0] == "bytes":
+                ln = t[1]
+                toks.append(("bytes", ("len@%d" % pos[ln]) if ln in pos else "?"))
+            elif t[0] == "call":
+                toks.append(("call", t[1]))
+            else:
+                toks.append((t[0],))
+
+        def val(x, d=0):
+            if not isinstance(x, tuple) or d > 6:
+                return "?"
+            if x[0] == "sym":
+                return "tok@%d" % pos.get(x, -1)
+            if x[0] in ("ok", "some"):
+                return (x[0], val(x[1], d + 1))
+            if x[0] in ("none", "unit", "err"):
+                return (x[0],)
+            if x[0] == "callres":
+                return ("result-of", x[1])
+            if x[0] == "ctor":
+                return ("ctor", x[1].split("::")[-1], tuple(val(y, d + 1) for y in x[2]))
+            if x[0] == "utf8":
+                return ("utf8", val(x[1], d + 1))
+            if x[0] == "vec":
+                return ("vec", val(x[1], d + 1))
+            if x[0] == "okerr":
+                return ("ok", val(x[1], d + 1))
+            if x[0] == "payload":
+                return val(x[1], d + 1)
+            return "?"
+        kind = "err" if v[0] == "err" else "ok"
+        out.append((tuple(toks), kind, val(v) if kind == "ok" else ("err",), bool(st.guards)))
+    return out
+
+
 def reader_grammar(F, rep):
-    g = {}
-    # to_utf8: u8 length, that many bytes, UTF-8
-    b = F.body(DE + "to_utf8")
-    ok = False
-    if b:
-        txt = tir.pretty(b["tir"]["value"])
-        val = L.strip_try(b["tir"]["value"])
-        st = val.get("stmts", [])
+    import readpaths
+    from props import C08
+    got = {}
+    for fn in ("to_utf8", "to_key", "to_val"):
+        b = F.body(DE + fn)
+        if b is None:
+            rep.ob("grammar.reader." + fn, False, DE + fn, "missing", "%s not found" % (DE + fn))
+            continue
         try:
-            l0 = strip(st[0]["init"]["e"]) if st[0]["init"].get("k") == "Try" else {}
-            ln = st[0]["pat"]["name"]
-            bufinit = strip(st[1]["init"])
-            bufname = st[1]["pat"]["name"]
-            sized = [x.get("name") for x in tir.walk(bufinit) if x.get("k") == "Path" and x.get("res") == "local"] == [ln]
-            rx = strip(L.strip_try(st[2]))
-            exact = rx.get("k") == "MethodCall" and rx["method"] == "read_exact" and L.local_name(rx["args"][0]) == bufname
-            tail = L.strip_try(val["tail"])
-            conv = tail.get("k") == "Call" and (declared(tail) or "").endswith("::Ok") and "String::from_utf8(%s)?" % bufname in tir.pretty(tail)
-            # the bytes read are the bytes converted: nothing else may touch the buffer in between
-            from props import C08
-            touched = [n for pl, n in C08.mutations(val) if pl == bufname and not (n.get("k") == "AddrOf" and any(n is strip(a) or n is a for a in rx.get("args", [])))]
-            ok = l0.get("method") == "read_u8" and sized and exact and conv and not touched
-        except (IndexError, KeyError, TypeError):
+            got[fn] = _simplify(readpaths.Paths(F, b, local_prefix=DE))
+        except L.Unsupported as e:
+            rep.cannot("grammar.reader." + fn, DE + fn, e)
+    # to_utf8: u8 length, exactly that many bytes, String::from_utf8 of exactly those bytes
+    if "to_utf8" in got:
+        oks = set(p for p in got["to_utf8"] if p[1] == "ok")
+        errs = set(p[0] for p in got["to_utf8"] if p[1] == "err")
+        want_tokens = (("u8", None), ("bytes", "len@0"))
+        ok = oks == {(want_tokens, "ok", ("ok", ("utf8", ("vec", "tok@0"))), False)} and errs <= {want_tokens}
+        # the bytes read are the bytes converted: nothing else may touch the buffer in between
+        b = F.body(DE + "to_utf8")
+        val = b["tir"]["value"]
+        bufs = [x for x in tir.walk(val) if x.get("k") == "Let" and x["pat"].get("k") == "Bind" and (x["pat"].get("ty") or "").startswith("std::vec::Vec<u8")]
+        touched = []
+        if len(bufs) == 1:
+            bufname = bufs[0]["pat"]["name"]
+            rx = [x for x in tir.walk(val) if x.get("k") == "MethodCall" and x["method"] == "read_exact"]
+            touched = [n for pl, n in C08.mutations(val) if pl == bufname and not (rx and n.get("k") == "AddrOf" and any(n is strip(a) or n is a for a in rx[0].get("args", [])))
+                       and not (n.get("k") == "MethodCall" and n.get("method") in ("as_mut_slice", "as_mut") and rx and any(n is a or n is strip(a) for a in rx[0].get("args", [])))]
+        else:
             ok = False
-    rep.ob("grammar.reader.utf8", ok, DE + "to_utf8", "shape", "to_utf8 must be: u8 length, exactly that many bytes, String::from_utf8")
-    g["utf8"] = ["u8len", "bytes"]
-    # to_key
-    b = F.body(DE + "to_key")
-    m, arms, default = byte_match(b["tir"]["value"]) if b else (None, {}, None)
-    key_ok = (set(arms) == {0x55, 0x7d} and "to_utf8" in tir.pretty(arms.get(0x55, {})) and (L.strip_try(arms.get(0x55, {})).get("path") or "").endswith("::Ok")
-              and "None" in tir.pretty(arms.get(0x7d, {})) and default is not None and is_err(default))
-    rep.ob("grammar.reader.key", key_ok, DE + "to_key", "markers", "to_key must accept exactly 'U'<utf8> (key) and '}' (end of map); found markers %s" % sorted(hex(x) for x in arms),
-           sample={"key_markers": sorted(hex(x) for x in arms)})
-    # to_val
-    b = F.body(DE + "to_val")
-    m, arms, default = byte_match(b["tir"]["value"]) if b else (None, {}, None)
-    ok = set(arms) == {0x53, 0x6c, 0x7b} and default is not None and is_err(default)
-    rep.ob("grammar.reader.value-markers", ok, DE + "to_val", "markers", "to_val must accept exactly 'S', 'l', '{'; found %s" % sorted(hex(x) for x in arms),
-           sample={"value_markers": sorted(hex(x) for x in arms)})
-    if 0x53 in arms:
-        m2, a2, d2 = byte_match(arms[0x53])
-        ok = set(a2) == {0x55} and "serde_json::Value::String(io::ubjson::de::to_utf8(r)?)" in tir.pretty(a2.get(0x55, {})) and d2 is not None and is_err(d2)
-        rep.ob("grammar.reader.string", ok, DE + "to_val", "S", "string value must be 'S' 'U' <utf8>")
-    if 0x6c in arms:
-        reads = [x for x in tir.walk(arms[0x6c]) if x.get("k") == "MethodCall" and (declared(x) or "").startswith("byteorder::ReadBytesExt::read_")]
-        ok = len(reads) == 1 and reads[0]["method"] == "read_i32" and L.endian_of(reads[0]) == "BigEndian" and "serde_json::Value::Number" in tir.pretty(arms[0x6c])
-        rep.ob("grammar.reader.int", ok, DE + "to_val", "l", "integer value must be 'l' + i32 big-endian")
-    if 0x7b in arms:
-        calls = [callee(x) for x in tir.walk(arms[0x7b]) if x.get("k") in ("Call", "MethodCall") and (callee(x) or "").startswith(DE)]
-        ok = calls and all(c in (DE + "read_map_", DE + "read_map") for c in calls) and "serde_json::Value::Object" in tir.pretty(arms[0x7b])
-        rep.ob("grammar.reader.map", bool(ok), DE + "to_val", "{", "map value must recurse into read_map after '{'")
+        rep.ob("grammar.reader.utf8", ok and not touched, DE + "to_utf8", "shape", "to_utf8 must be: u8 length, exactly that many bytes, String::from_utf8 of those bytes; paths: %s%s" % (
+            sorted(oks)[:3], "; the buffer is modified between the read and the conversion" if touched else ""), sample={"paths": [str(x) for x in sorted(oks)]})
+    if "to_key" in got:
+        want = {((("u8", ("=", 0x55)), ("call", "to_utf8")), "ok", ("ok", ("some", ("result-of", "to_utf8"))), False),
+                ((("u8", ("=", 0x7d)),), "ok", ("ok", ("none",)), False),
+                ((("u8", ("!=", (0x55, 0x7d))),), "err", ("err",), False)}
+        have = set(got["to_key"])
+        markers = sorted(hex(t[1][1]) for p in have for t in p[0][:1] if t[0] == "u8" and t[1] and t[1][0] == "=" and p[1] == "ok")
+        rep.ob("grammar.reader.key", have == want, DE + "to_key", "markers", "to_key must accept exactly 'U'<utf8> (key) and '}' (end of map) and reject every other byte; accepted first bytes %s, paths differing: %s" % (
+            markers, sorted(str(x) for x in have ^ want)[:3]), sample={"key_markers": markers})
+    if "to_val" in got:
+        have = set(got["to_val"])
+        oks = set(p for p in have if p[1] == "ok")
+        markers = sorted(set(hex(p[0][0][1][1]) for p in oks if p[0] and p[0][0][0] == "u8" and p[0][0][1] and p[0][0][1][0] == "="))
+        rep.ob("grammar.reader.value-markers", markers == ["0x53", "0x6c", "0x7b"] and ((("u8", ("!=", (0x53, 0x6c, 0x7b))),), "err", ("err",), False) in have, DE + "to_val", "markers",
+               "to_val must accept exactly 'S', 'l', '{' and reject every other byte; found %s" % markers, sample={"value_markers": markers})
+        s_ok = {p for p in oks if p[0][:1] == (("u8", ("=", 0x53)),)}
+        s_all = {p for p in have if p[0][:1] == (("u8", ("=", 0x53)),)}
+        want_s = {((("u8", ("=", 0x53)), ("u8", ("=", 0x55)), ("call", "to_utf8")), "ok", ("ok", ("ctor", "String", (("result-of", "to_utf8"),))), False),
+                  ((("u8", ("=", 0x53)), ("u8", ("!=", (0x55,)))), "err", ("err",), False)}
+        rep.ob("grammar.reader.string", s_all == want_s, DE + "to_val", "S", "string value must be 'S' 'U' <utf8> and nothing else; paths: %s" % sorted(str(x) for x in s_all ^ want_s)[:3])
+        l_all = {p for p in have if p[0][:1] == (("u8", ("=", 0x6c)),)}
+        want_l = {((("u8", ("=", 0x6c)), ("i32be", None)), "ok", ("ok", ("ctor", "Number", ("tok@1",))), False)}
+        rep.ob("grammar.reader.int", l_all == want_l, DE + "to_val", "l", "integer value must be 'l' + i32 big-endian stored unchanged; paths: %s" % sorted(str(x) for x in l_all ^ want_l)[:3])
+        m_all = {p for p in have if p[0][:1] == (("u8", ("=", 0x7b)),)}
+        m_ok = {p for p in m_all if p[1] == "ok"}
+        ok = (len(m_ok) == 1 and all(p[0][1:] in ((("call", "read_map_"),), (("call", "read_map"),)) and p[2][1][:2] == ("ctor", "Object") and p[2][1][2] in ((("result-of", "read_map_"),), (("result-of", "read_map"),)) for p in m_ok)
+              and all(p[1] == "err" and p[0] == (("u8", ("=", 0x7b)),) and p[3] for p in m_all - m_ok))
+        rep.ob("grammar.reader.map", ok, DE + "to_val", "{", "map value must recurse into read_map after '{' (a depth guard may refuse); paths: %s" % sorted(str(x) for x in m_all)[:3])
     # read_map_: loop { key or end; value; insert in read order }
     b = F.body(DE + "read_map_") or F.body(DE + "read_map")
     ok = False
     if b:
+        env = tir.LetEnv(b["tir"]["value"])
         ins = [x for x in tir.walk(b["tir"]["value"]) if x.get("k") == "MethodCall" and (declared(x) or "") == "serde_json::Map::<std::string::String, serde_json::Value>::insert"]
-        ok = len(ins) == 1 and L.local_name(ins[0]["args"][0]) is not None and "to_val" in tir.pretty(ins[0]["args"][1])
+        if len(ins) == 1:
+            v = env.resolve(ins[0]["args"][1], peel=True)
+            keyed = strip(ins[0]["args"][0]).get("k") == "Path" and strip(ins[0]["args"][0]).get("res") == "local"
+            ok = keyed and v.get("k") == "Call" and (declared(v) or "") == DE + "to_val"
     rep.ob("order.reader-insert", ok, DE + "read_map_", "insert", "the reader must insert each (key, value) pair into the map in read order, once")
 
 
@@ -135,20 +194,39 @@ def writer_grammar(F, rep):
     ok_loop = False
     arms = {}
     if b:
+        mapname = b["tir"]["params"][1].get("name")
+        it = None        # (pair pattern, body)
         for n in tir.walk(b["tir"]["value"]):
-            if n.get("k") == "For":
-                ok_loop = tir.place(n["iter"]) == b["tir"]["params"][1].get("name")
-                stmts = L.strip_try(n["body"]).get("stmts", []) + [L.strip_try(n["body"]).get("tail")]
-                first = write_tokens(F, stmts[0]) if stmts else []
-                kname = (n["pat"]["pats"][0].get("name") if n["pat"].get("k") == "Tuple" else None)
-                rep.ob("grammar.writer.key", first == [("call", "write_utf8", [kname])], SER + "write_map", "key", "each pair must start with write_utf8(key); got %s" % first)
-                for m in tir.walk(n["body"]):
-                    if m.get("k") == "Match":
-                        for a in m["arms"]:
-                            p = a["pat"]
-                            nm = (p.get("path") or "_").split("::")[-1] if p.get("k") == "TupleStruct" else "_"
-                            arms[nm] = (write_tokens(F, a["body"]), a)
-                        break
+            if n.get("k") == "For" and it is None:
+                src = strip(n["iter"])
+                if src.get("k") == "MethodCall" and src["method"] in ("iter", "into_iter") and not src.get("args"):
+                    src = strip(src["recv"])
+                ok_loop = tir.place(src) == mapname
+                it = (n["pat"], n["body"])
+            if n.get("k") == "MethodCall" and n["method"] in ("try_for_each", "for_each") and it is None and len(n["args"]) == 1 and strip(n["args"][0]).get("k") == "Closure":
+                src = strip(n["recv"])
+                if src.get("k") == "MethodCall" and src["method"] in ("iter", "into_iter") and not src.get("args"):
+                    src = strip(src["recv"])
+                cl = strip(n["args"][0])
+                ok_loop = tir.place(src) == mapname and len(cl["params"]) == 1
+                it = (cl["params"][0], cl["body"])
+        if it is not None:
+            pat, body = it
+            bb = L.strip_try(body)
+            stmts = [x for x in (bb.get("stmts", []) + [bb.get("tail")]) if x is not None] if bb.get("k") == "Block" else [bb]
+            first = write_tokens(F, stmts[0]) if stmts else []
+            kname = (pat["pats"][0].get("name") if pat.get("k") == "Tuple" else None)
+            vname = (pat["pats"][1].get("name") if pat.get("k") == "Tuple" and len(pat["pats"]) > 1 else None)
+            rep.ob("grammar.writer.key", first == [("call", "write_utf8", [kname])], SER + "write_map", "key", "each pair must start with write_utf8(key); got %s" % first)
+            for m in tir.walk(body):
+                if m.get("k") == "Match" and L.local_name(m["scrut"]) == vname:
+                    for a in m["arms"]:
+                        p = a["pat"]
+                        while p.get("k") == "Ref":
+                            p = p["pat"]
+                        nm = (p.get("path") or "_").split("::")[-1] if p.get("k") == "TupleStruct" else "_"
+                        arms[nm] = (write_tokens(F, a["body"]), a)
+                    break
     rep.ob("order.writer-iter", ok_loop, SER + "write_map", "iteration", "the writer must iterate the map itself (insertion order), not a sorted or collected copy")
     s = arms.get("String", ([], None))[0]
     rep.ob("grammar.writer.string", len(s) == 2 and s[0] == ("byte", 0x53) and s[1][:2] == ("call", "write_utf8"), SER + "write_map", "String", "string values must be emitted as 'S' + write_utf8; got %s" % s)
@@ -170,9 +248,7 @@ def toplevel_rule(F, rep):
     got = None
     for n in tir.walk(b["tir"]["value"]):
         if n.get("k") == "Call" and (declared(n) or "") == "io::expect_bytes":
-            a = strip(n["args"][1])
-            if a.get("k") == "Array":
-                got = [tir.lit_int(e) for e in a["elems"]]
+            got = F.bytes_of(n["args"][1])
     rep.ob("toplevel.reader-key", got == key[1:], "io::slippi::de::parse_metadata", "key", "parse_metadata must expect %s after the 'U', got %s" % (key[1:], got))
     rb = F.body("io::slippi::de::read")
     m, arms, default = byte_match(L.strip_try(rb["tir"]["value"]).get("stmts", [])[-2] if False else rb["tir"]["value"])
@@ -185,8 +261,9 @@ def toplevel_rule(F, rep):
     ok = False
     if term:
         aa, dd = term
-        t55 = tir.pretty(aa[0x55])
-        ok = "parse_metadata" in t55 and "expect_bytes(&mut r, &(125))?" in t55.replace("[", "(").replace("]", ")") and is_err(L.strip_try(dd).get("e") or dd) if dd is not None else False
+        calls55 = [x for x in tir.walk(aa[0x55]) if x.get("k") == "Call" and (declared(x) or "") in ("io::slippi::de::parse_metadata", "io::expect_bytes")]
+        ok = (len(calls55) == 2 and declared(calls55[0]) == "io::slippi::de::parse_metadata" and declared(calls55[1]) == "io::expect_bytes" and F.bytes_of(calls55[1]["args"][1]) == [0x7d]
+              and is_err(L.strip_try(dd).get("e") or dd)) if dd is not None else False
         none_arm = L.strip_try(aa[0x7d])
         ok = ok and (none_arm.get("k") in ("Block", "Tup")) and not list(x for x in tir.walk(none_arm) if x.get("k") in ("Call", "MethodCall", "Assign"))
     rep.ob("toplevel.reader-terminator", bool(ok), "io::slippi::de::read", "terminator", "after the raw element read() must accept 'U'+metadata+'}' or a bare '}' (no metadata) and nothing else")
@@ -332,7 +409,8 @@ EMIT_PREFIX = ("byteorder::WriteBytesExt::write_", "std::io::Write::write_", "st
 PURE = ("core::str::<impl str>::len", "std::string::String::len", "std::string::String::as_str", "core::str::<impl str>::as_bytes", "std::string::String::as_bytes",
         "std::ops::Deref::deref", "std::clone::Clone::clone", "std::iter::IntoIterator::into_iter", "serde_json::Map::<K, V>::iter", "serde_json::Map::<std::string::String, serde_json::Value>::iter",
         "std::convert::AsRef::as_ref", "std::borrow::Borrow::borrow", "std::prelude::v1::Ok", "std::prelude::v1::Some", "serde_json::Map::<std::string::String, serde_json::Value>::len",
-        "std::convert::From::from", "std::convert::Into::into", "std::hint::must_use")
+        "std::convert::From::from", "std::convert::Into::into", "std::hint::must_use", "std::iter::Iterator::try_for_each", "std::iter::Iterator::for_each",
+        "serde_json::Map::<std::string::String, serde_json::Value>::iter", "serde_json::map::Map::<std::string::String, serde_json::Value>::iter")
 ERR_ADAPT = ("ok_or", "ok_or_else", "map_err", "unwrap_or_else", "or_else")
 CONSUME = ("unwrap", "expect")
 
